@@ -32,7 +32,7 @@ static tdma_sched_cb *cbs[7] = { cb0, cb1, cb2, cb3, cb4, cb5, cb6 };
 
 int main(void)
 {
-	static char line[1 << 16];
+	static char line[1 << 20];
 	while (fgets(line, sizeof(line), stdin)) {
 		char *p = line;
 		memset(&l1s.tdma_sched, 0, sizeof(l1s.tdma_sched));
